@@ -86,7 +86,8 @@ def case_env(case: dict, extra: dict) -> dict:
 def gen_edges(rng, n, weighted, neg):
     m = rng.randrange(0, 3 * n + 2)
     edges = []
-    mode = rng.choice(["ints", "dyadic"])
+    mode = rng.choice(["ints", "dyadic", "dyadic", "tiny"])
+    tiny = 2.0 ** -40  # ~9e-13: still exact in both languages, but far below any plausible "rounding noise" tolerance
     for _ in range(m):
         x = rng.random()
         if edges and x < 0.15:  # duplicate with another weight
@@ -100,6 +101,8 @@ def gen_edges(rng, n, weighted, neg):
         if weighted:
             lo = -3 if neg else 0
             w = rng.randrange(lo * 4, 41) / 4.0 if mode == "dyadic" else rng.randrange(lo, 10)
+            if mode == "tiny":
+                w = rng.randrange(lo, 10) * tiny
             edges.append([u, v, w])
         else:
             edges.append([u, v])
